@@ -39,6 +39,9 @@ def parse(log):
     if caught_first:
         out["check_result"] = "caught"
         out["check_first_messages"] = msgs(own)[:2]
+    elif caught_later and all("thorough tier" in r.splitlines()[0] for r in reruns if "VIOLATION" in r):
+        out["check_result"] = "missed by the quick tier, caught by the thorough tier"
+        out["check_first_messages"] = [("re-run" + r.splitlines()[0]).strip()[:400] for r in reruns if "VIOLATION" in r][:1]
     elif caught_later:
         out["check_result"] = "caught after strengthening"
         mm = []
